@@ -285,3 +285,37 @@ def check_qs_chain(ctx, unit):
             if not rm:
                 ctx.inst("A1.ack-rmw", "%s: <ack is a read-modify-write>" % f.uq, False, f.loc,
                          "no atomic RMW on the ack count: the decrement is not atomic", f)
+
+
+def check_qs_join_leave(ctx, unit):
+    """Joining and leaving are atomic with respect to the period counter: the counter value an agent
+    records as already acknowledged is read in the same critical section that changes the agent
+    count, and every reset of the ack count reads the agent count after this call's own adjustment."""
+    ctx.rule("E.join-snapshot", "online()/offline(): every load of the period counter whose value ends up in _acked_qs_counter "
+             "or decides whether this agent still owes an acknowledgement is made with the domain mutex held", 2)
+    ctx.rule("E.count-before-reset", "online()/offline(): the agent count is adjusted before any store that re-arms the ack "
+             "count from it", 2)
+    for name in ("online", "offline"):
+        for f in _one(unit, AGENT + "::" + name):
+            la = LockAnalysis(f)
+            acc = RA.accesses(f)
+            lds = [a for a in acc if a.op == "load" and a.obj and a.obj[-1] == "_qs_counter" and not in_assert(a.node)]
+            if not lds:
+                raise AnalysisBroken("anchor vanished: period-counter load in %s" % f.qn)
+            bad = []
+            for a in lds:
+                held = None
+                for st in la.at.get(a.node.id, ()):
+                    ls = LockAnalysis.lockset(st)
+                    held = ls if held is None else (held & ls)
+                if not (held and DOM_MUTEX in held):
+                    bad.append(a.loc)
+            ctx.inst("E.join-snapshot", "%s::%s" % (AGENT, name), not bad, bad[0] if bad else f.loc,
+                     ("the period counter is sampled at %s outside the domain mutex: it can advance before the agent count "
+                      "changes, and the agent then acknowledges a period that never counted it" % bad[0]) if bad else
+                     "%d counter loads, all inside the critical section" % len(lds), f)
+            adj = [n for n in f.events() if write_of(n) and write_of(n)[0] and write_of(n)[0][-1] == "_num_agents"]
+            rearm = [a for a in acc if a.op == "store" and a.obj and a.obj[-1] == "_agents_to_ack"]
+            ok = bool(adj) and all(any(f.dominates(x.id, a.node.id) for x in adj) for a in rearm)
+            ctx.inst("E.count-before-reset", "%s::%s" % (AGENT, name), ok and bool(rearm), f.loc,
+                     "agent count adjusted before each of the %d ack-count stores: %s" % (len(rearm), ok), f)
